@@ -119,11 +119,23 @@ def r2_embedding(ctx) -> None:
         else:
             r.violation("C10.R2", f.qual, "single-rule shortcut guards",
                         f"the shortcut embeds queries[0] only; it must require len(referenced_rules) == 1 and len(queries) == 1 — otherwise further conditions of the referenced rule are dropped silently (facts: {[g[:70] for g, p in gs if p]})", loc)
-        kws = {k.arg: unparse(k.value) for k in single[0].keywords}
-        if kws.get("query") == "queries[0]" and kws.get("rule") == "rule_reference":
-            r.ok("C10.R2", f.qual, "shortcut embeds the one query of the one rule", loc)
+        kws = {k.arg: unparse(k.value) for k in single[0].keywords if k.arg}
+        # sibling agreement: the single-rule template gets what the multi-rule query template gets for the same rule
+        multi = next((g.elt for g in walk_no_nested(f.node) if isinstance(g, ast.GeneratorExp) and len(g.generators) == 2 and isinstance(g.elt, ast.Call)), None)
+        mk = {k.arg: unparse(k.value) for k in multi.keywords if k.arg} if multi is not None else {}
+        ref = next((unparse(n.target) for n in walk_no_nested(f.node) if isinstance(n, ast.NamedExpr) and unparse(n.value) == "rule.referenced_rules[0]"), "rule_reference")
+        mref = unparse(next(g for g in walk_no_nested(f.node) if isinstance(g, ast.GeneratorExp) and len(g.generators) == 2).generators[0].target) if multi is not None else ref
+        problems = []
+        if kws.get("query") != "queries[0]":
+            problems.append(f"query={kws.get('query')} (expected queries[0])")
+        for k in ("rule", "ruleid", "normalization"):
+            want = mk.get(k, "").replace(mref, ref) if mk.get(k) else None
+            if want is not None and kws.get(k, "").replace(" ", "") != want.replace(" ", ""):
+                problems.append(f"{k}={kws.get(k)} but the multi-rule query template gets {k}={want}: the documented placeholders {{rule}} (the referred rule) and {{ruleid}} (its name or id) are missing or another object, so a backend whose single-rule template tags the query fails with KeyError/AttributeError or tags it differently")
+        if not problems:
+            r.ok("C10.R2", f.qual, "shortcut embeds the one query of the one rule with the same rule/ruleid/normalization arguments as the multi-rule query template", loc)
         else:
-            r.violation("C10.R2", f.qual, short(single[0], 120), "shortcut arguments altered", loc)
+            r.violation("C10.R2", f.qual, short(single[0], 120), "; ".join(problems), loc)
     else:
         r.violation("C10.R2", f.qual, "single-rule shortcut", "not found", f.loc)
     cr = prog.func(TQ + ".convert_referenced_rules")
@@ -201,26 +213,139 @@ def r3_timespan(ctx) -> None:
 
 def r4_field_mapping(ctx) -> None:
     r, prog = ctx.r, ctx.prog
-    r.rule("C10.R4", "field-name pipelines cover every field-bearing attribute of a correlation rule: fields, group-by (aliases excluded by name), alias mapping targets and the condition field reference (string and list form) are re-assigned from _apply_field_name")
+    r.rule("C10.R4", "field-name pipelines cover every field-bearing attribute of a correlation rule: fields, group-by (alias names kept), alias mapping targets (only for referred rules the item's rule conditions match) and the condition field reference (string and list form; alias names kept) — FieldMappingTransformationBase.apply interpreted on stand-in correlation rules (sa.tabulate)")
     f = prog.func("sigma.processing.transformations.base.FieldMappingTransformationBase.apply")
-    src = unparse(f.node)
-    checks = [
-        ("rule.fields = [item for mapping in map(self._apply_field_name, rule.fields) for item in mapping]" in src, "rule.fields re-assigned from _apply_field_name"),
-        ("alias.mapping[rule_reference] = mapped_field_name[0]" in src and "mapped_field_name = self._apply_field_name(field_name)" in src, "alias mapping targets re-assigned"),
-        ("rule.group_by = [item for field_name in rule.group_by for item in (self._apply_field_name(field_name) if field_name not in aliases else [field_name])]" in src, "group-by re-assigned; alias names excluded"),
-        ("rule.condition.fieldref = mapped_fields" in src and "rule.condition.fieldref = mapped_field[0]" in src and "mapped_field = self._apply_field_name(fieldref)" in src, "condition field reference re-assigned (list and string form)"),
-        ("aliases.add(alias.alias)" in src, "alias names collected before group-by is mapped"),
-    ]
-    for ok_, what in checks:
-        if ok_:
+    from ..tabulate import Interp, Raised
+    MAP = {"user": ["U"], "ip": ["IP"], "u": ["ALIAS_U"], "other": ["other"]}
+
+    class _Corr:
+        pass
+
+    class _Cond:
+        pass
+
+    class _Ref:
+        def __init__(self, name, matches):
+            self.reference = name
+            self.rule = type("Rule", (), {"matches": matches})()
+
+        def __hash__(self):
+            return hash(self.reference)
+
+        def __eq__(self, o):
+            return isinstance(o, _Ref) and o.reference == self.reference
+
+    class _Alias:
+        def __init__(self, alias, mapping):
+            self.alias, self.mapping = alias, mapping
+
+    def make(group_by, fieldref, with_aliases=True):
+        rule = _Corr()
+        ra, rb = _Ref("a", True), _Ref("b", False)
+        rule.fields = ["user", "other"]
+        rule.group_by = group_by
+        rule.aliases = [_Alias("u", {ra: "user", rb: "user"})] if with_aliases else []
+        rule.referenced_rules = [ra, rb]
+        rule.condition = _Cond()
+        rule.condition.fieldref = fieldref
+        return rule, ra, rb
+
+    def run_case(rule):
+        calls = []
+        base = type("B", (), {"apply": lambda self_, rr: calls.append(rr)})()
+        me = type("T", (), {})()
+        me._apply_field_name = lambda fn: list(MAP.get(fn, [fn]))
+        me.processing_item = type("PI", (), {"match_rule_conditions": lambda self_, rr: rr.matches})()
+        it = Interp({"self": me, "rule": rule, "SigmaCorrelationRule": _Corr, "SigmaCorrelationCondition": _Cond, "super": lambda: base,
+                     "SigmaConfigurationError": type("SigmaConfigurationError", (Exception,), {}), "next": next}, max_steps=20000)
+        it.call(f.node.body)
+        return calls
+
+    cases = []
+    try:
+        rule, ra, rb = make(["user", "u"], "ip")
+        calls = run_case(rule)
+        cases += [
+            ("rule.fields are mapped", rule.fields, ["U", "other"]),
+            ("group-by: event fields mapped, alias names kept", rule.group_by, ["U", "u"]),
+            ("alias target of a referred rule the rule conditions match is mapped", rule.aliases[0].mapping[ra], "U"),
+            ("alias target of a referred rule the rule conditions do not match keeps its name (that rule's own query keeps it too)", rule.aliases[0].mapping[rb], "user"),
+            ("condition field (event field) is mapped", rule.condition.fieldref, "IP"),
+            ("detection items are mapped afterwards through the base class", len(calls), 1),
+        ]
+        rule, ra, rb = make(["user"], "u")
+        run_case(rule)
+        cases.append(("a condition field that names an alias is kept", rule.condition.fieldref, "u"))
+        rule, ra, rb = make(["user"], ["ip", "u"])
+        run_case(rule)
+        cases.append(("condition field list: event fields mapped, alias names kept", rule.condition.fieldref, ["IP", "u"]))
+        rule, ra, rb = make(None, "u")
+        run_case(rule)
+        cases.append(("without group-by a condition field that names an alias is kept as well", rule.condition.fieldref, "u"))
+        rule, ra, rb = make(["u", "ip"], None, with_aliases=False)
+        run_case(rule)
+        cases.append(("without aliases every group-by field is mapped", rule.group_by, ["ALIAS_U", "IP"]))
+    except Raised as ex:
+        r.violation("C10.R4", f.qual, "apply() on a correlation rule", f"the tabulated application raises {ex}", f.loc)
+        cases = []
+    for what, got, want in cases:
+        if got == want:
             r.ok("C10.R4", f.qual, what, f.loc)
         else:
-            r.violation("C10.R4", f.qual, what, "a field-bearing attribute of the correlation rule is not renamed consistently with the referenced rules (the correlation would group/aggregate on a field the sub-queries no longer produce)", f.loc)
-    if "return super().apply(rule)" in src or "super().apply(rule)" in src:
-        r.ok("C10.R4", f.qual, "detection items are mapped afterwards through the base class", f.loc)
-    else:
-        r.violation("C10.R4", f.qual, "super().apply(rule)", "detection items are no longer mapped", f.loc)
+            r.violation("C10.R4", f.qual, what, f"tabulated application gives {got!r}, specified {want!r}: a field-bearing attribute of the correlation rule is not renamed consistently with the referenced rules (the correlation would group/aggregate on a field the sub-queries do not produce)", f.loc)
     r.floor("C10.R4", 6)
+
+
+def _r6_condition_numbers(ctx) -> None:
+    """'as given' starts at the loader: SigmaCorrelationCondition.from_dict interpreted on sample condition maps."""
+    from ..tabulate import Interp, Raised
+    r, prog = ctx.r, ctx.prog
+    CQ = "sigma.correlations.SigmaCorrelationCondition"
+    f = prog.func(CQ + ".from_dict")
+
+    class _Op:
+        names = ("lt", "lte", "gt", "gte", "eq", "neq")
+
+        @classmethod
+        def operators(cls):
+            return set(cls.names)
+
+        def __class_getitem__(cls, k):
+            return k
+
+    class _Exc:
+        def __getattr__(self, n):
+            return type(n, (Exception,), {})
+
+    samples = [({"gt": 0.5, "field": "f"}, 0.5, None), ({"gte": 2}, 2, None), ({"gt": 2.0}, 2, None), ({"lt": 2.75}, 2.75, None),
+               ({"gte": 1, "field": "f", "percentile": 99.9}, 1, 99.9), ({"gte": 1, "field": "f", "percentile": 95}, 1, 95), ({"eq": "3"}, 3, None)]
+    bad = []
+    for d, want_count, want_pct in samples:
+        got = {}
+
+        def cls(**kw):
+            got.update(kw)
+            return kw
+        for nm, m in prog.cls(CQ).methods.items():   # helper static/class methods of the condition class
+            if nm not in ("from_dict", "to_dict") and not nm.startswith("__"):
+                pass
+        it = Interp({"cls": cls, "d": dict(d), "source": None, "SigmaCorrelationConditionOperator": _Op, "sigma_exceptions": _Exc(),
+                     "ValueError": ValueError, "TypeError": TypeError, "OverflowError": OverflowError, "KeyError": KeyError}, max_steps=5000)
+        for nm, m in prog.cls(CQ).methods.items():
+            if nm not in ("from_dict", "to_dict") and not nm.startswith("__"):
+                setattr(cls, nm, it._make_function(ast.FunctionDef(name=m.node.name, args=m.node.args, body=m.node.body, decorator_list=[], lineno=m.node.lineno, col_offset=0)))
+        try:
+            it.call(f.node.body)
+        except Raised as ex:
+            bad.append((d, f"refused ({ex})"))
+            continue
+        if got.get("count") != want_count or type(got.get("count")) is not type(want_count) or got.get("percentile") != want_pct:
+            bad.append((d, f"count={got.get('count')!r}, percentile={got.get('percentile')!r}; given {want_count!r} / {want_pct!r}"))
+    if bad:
+        d, why = bad[0]
+        r.violation("C10.R6", f.qual, f"condition {d}", f"{why} (+{len(bad) - 1} more sample(s)): a threshold or percentile that is not integral is truncated on loading, e.g. `gt: 0.5` becomes `> 0`", f.loc)
+    else:
+        r.ok("C10.R6", f.qual, f"from_dict interpreted on {len(samples)} condition maps: count and percentile are stored as given (integral values as int)", f.loc)
 
 
 def r6_pass_through(ctx) -> None:
@@ -238,6 +363,7 @@ def r6_pass_through(ctx) -> None:
     else:
         r.violation("C10.R4", lm.qual, "self.match(ref.rule) for SigmaRule and SigmaCorrelationRule references", "the log source condition no longer descends into referenced correlation rules: a log-source conditioned field mapping renames the base rules and inner correlations but leaves group-by, alias targets and the condition field of the outer correlation unmapped", lm.loc)
     r.rule("C10.R6", "condition operator, count, field and percentile reach the templates unchanged: op=correlation_condition_mapping[cond.op], count=cond.count, field=escape_and_quote_fieldref(cond.fieldref / rule.condition.fieldref), percentile=rule.condition.percentile; the operator table maps lt,lte,gt,gte,eq,neq to <,<=,>,>=,==,!=; the correlation template receives search, typing, timespan, aggregate, condition and group-by")
+    _r6_condition_numbers(ctx)
     f = prog.func(TQ + ".convert_correlation_condition_from_template")
     calls = [c for c in walk_no_nested(f.node) if isinstance(c, ast.Call) and call_name(c) == "self._format_template"]
     basic = next((c for c in calls if any(k.arg == "op" for k in c.keywords)), None)
